@@ -1,0 +1,44 @@
+//go:build verif
+
+package interpreter
+
+// Verification hook (build tag `verif` only): a deterministic execution budget.
+// VerifArm(budget, depth) arms a limit on evaluation steps and on the depth of
+// user-function activations; exceeding either panics with a sentinel that the
+// batch driver in main_verif.go recognises.  A zero limit means "unlimited".
+
+type verifBudgetPanic struct{ what string }
+
+var (
+	verifBudget   int64
+	verifMaxDepth int64
+	verifSteps    int64
+	verifDepth    int64
+)
+
+func VerifArm(budget, depth int64) {
+	verifBudget, verifMaxDepth, verifSteps, verifDepth = budget, depth, 0, 0
+}
+
+func VerifSteps() int64 { return verifSteps }
+
+func VerifIsBudgetPanic(r interface{}) bool {
+	_, ok := r.(verifBudgetPanic)
+	return ok
+}
+
+func verifTick() {
+	verifSteps++
+	if verifBudget > 0 && verifSteps > verifBudget {
+		panic(verifBudgetPanic{"steps"})
+	}
+}
+
+func verifEnter() {
+	verifDepth++
+	if verifMaxDepth > 0 && verifDepth > verifMaxDepth {
+		panic(verifBudgetPanic{"depth"})
+	}
+}
+
+func verifLeave() { verifDepth-- }
